@@ -1,4 +1,5 @@
 import StrumProofs.Lemmas.Bytes
+import StrumProofs.Source
 /-
 C14 — EnumMessage returns exactly the per-variant message, detail, docs and spellings.
 Model: StrumModel/Message.lean (four arm lists built in one pass; `_ => None` appended when the arm
@@ -160,5 +161,32 @@ def msgEnum : EnumDef :=
 example : getMessage msgEnum [65] = .val (some [109]) := by rfl
 example : getDocumentation msgEnum [66] = .val (some [120, 10, 121, 10]) := by rfl
 example : getMessage msgEnum [67] = .val none := by rfl
+
+/-! ### at source level (StrumProofs/Source.lean): what the getters return, read off the attributes AS WRITTEN on that one
+variant - nothing written on another variant, before or after it, enters -/
+
+theorem source_message (s : RawSource) (hid : (s.variants.map (·.ident)).Nodup) (r : RawVariant) (hr : r ∈ s.variants) :
+    getMessage s.declared r.ident =
+      .val (if r.isDisabled then none else lastOf VItem.message? r.attrs.flatten) :=
+  message_spec s.declared (source_nodup s hid) r.declared (source_mem s r hr)
+
+theorem source_detailed (s : RawSource) (hid : (s.variants.map (·.ident)).Nodup) (r : RawVariant) (hr : r ∈ s.variants) :
+    getDetailed s.declared r.ident =
+      .val (if r.isDisabled then none else
+        (match lastOf VItem.detailed? r.attrs.flatten with
+         | some x => some x
+         | none => lastOf VItem.message? r.attrs.flatten)) :=
+  detailed_spec s.declared (source_nodup s hid) r.declared (source_mem s r hr)
+
+theorem source_documentation (s : RawSource) (hid : (s.variants.map (·.ident)).Nodup) (r : RawVariant) (hr : r ∈ s.variants) :
+    getDocumentation s.declared r.ident =
+      .val (if r.isDisabled || r.docs.isEmpty then none else some (docText (r.docs.map stripOneSpace))) :=
+  doc_spec s.declared (source_nodup s hid) r.declared (source_mem s r hr)
+
+theorem source_serializations (s : RawSource) (hid : (s.variants.map (·.ident)).Nodup) (r : RawVariant) (hr : r ∈ s.variants) :
+    getSerializationsOf s.declared r.ident =
+      .val (some (let a := serializesOf r.attrs.flatten ++ (lastOf VItem.toStr? r.attrs.flatten).toList
+                  if a.isEmpty then [convertCase s.declared.style r.ident] else a)) :=
+  ser_spec s.declared (source_nodup s hid) r.declared (source_mem s r hr)
 
 end Strum
